@@ -46,9 +46,26 @@ def canon(e, fn=None):
             return canon(e[2][0], fn)
         return "%s(%s)" % (e[1], ",".join(canon(a, fn) for a in e[2]))
     if k == "bin":
+        if e[1] in ("Add", "Sub", "Mul", "AddUnchecked", "SubUnchecked", "MulUnchecked", "Shl"):
+            l, c = lin(e, fn)
+            if not (len(l) == 1 and c == 0 and list(l.values()) == [1] and list(l.keys())[0].startswith("(")):
+                return "lin{%s%+d}" % ("".join("%+d*%s" % (v, n) for n, v in sorted(l.items())), c)
+        if e[1] == "Rem" and e[3][0] == "const":
+            return "mod(%s,%d)" % (canon(e[2], fn), e[3][1])
+        if e[1] == "BitAnd":
+            for a, b in ((e[2], e[3]), (e[3], e[2])):
+                if b[0] == "const" and b[1] > 0 and (b[1] & (b[1] + 1)) == 0:
+                    return "mod(%s,%d)" % (canon(a, fn), b[1] + 1)
+        if e[1] in ("BitOr", "BitXor", "BitAnd", "Eq", "Ne"):
+            a, b = sorted([canon(e[2], fn), canon(e[3], fn)])
+            return "(%s %s %s)" % (a, e[1], b)
         return "(%s %s %s)" % (canon(e[2], fn), e[1], canon(e[3], fn))
     if k == "un":
         return "%s(%s)" % (e[1], canon(e[2], fn))
+    if k == "rep":
+        return "[%s; %s]" % (canon(e[1], fn), e[2])
+    if k == "agg":
+        return "agg:%s(%s)" % (e[1][1] if len(e[1]) > 1 else e[1][0], ",".join(canon(a, fn) for a in e[2]))
     if k == "index":
         return "%s[%s]" % (canon(e[1], fn), canon(e[2], fn))
     if k == "cindex":
@@ -88,8 +105,11 @@ def lin(e, fn=None):
             a, ca = lin(e[2], fn)
             m = 1 << cb
             return ({kk: v * m for kk, v in a.items()}, ca * m)
-    if k == "call" and e[1] in ("core::num::<impl usize>::wrapping_add", "core::num::<impl u64>::wrapping_add", "core::num::<impl u32>::wrapping_add"):
-        return ({canon(e, fn): 1}, 0)
+    if k == "call" and e[1].endswith("cmp::min") and len(e[2]) == 2:
+        a, b = sorted([canon(e[2][0], fn), canon(e[2][1], fn)])
+        return ({"min(%s,%s)" % (a, b): 1}, 0)
+    if k == "bin" and e[1] in ("Add", "Sub", "Mul", "AddUnchecked", "SubUnchecked", "MulUnchecked", "Shl"):
+        return ({"(%s %s %s)" % (canon(e[2], fn), e[1], canon(e[3], fn)): 1}, 0)
     return ({canon(e, fn): 1}, 0)
 
 
